@@ -642,6 +642,9 @@ class Gen:
                 items.append(('call', F(p, *args)))
                 bound.add(v)
                 bound |= set(term_vars(F(p, *args)))
+        if len(items) >= 3 and rng.random() < 0.2:
+            # left-nested conjunction ((A, B), C...)
+            return conj([('and', items[0], items[1])] + items[2:]), bound
         return conj(items), bound
 
     def _fresh(self, nv):
